@@ -15,7 +15,9 @@ CONSTANTS Groups,      \* Seq of group records, indexed by sub-index (1..N)
           NodeId
 
 N == Len(Groups)
-Subs(k) == IF k = 1 /\ N > 1 THEN [i \in 1..(N - 1) |-> i + 1] ELSE <<k>>
+\* a record with type 0 marks a sub-index that does NOT exist in 1010h / 1011h (sub-index 0 only gives the highest one: gaps are legal)
+IsGap(g) == g.type = 0
+Subs(k) == IF k = 1 /\ N > 1 THEN SelectSeq([i \in 1..(N - 1) |-> i + 1], LAMBDA j : ~IsGap(Groups[j])) ELSE <<k>>
 Para0 == [ram |-> Dflt, nvm |-> [i \in 1..Len(Dflt) |-> 0], fault |-> 0, short |-> 0, err |-> FALSE]
 R(p, out, ok) == [p |-> p, out |-> out, ok |-> ok]
 \* one driver call of `size' bytes: [n, p] = bytes transferred and the state with the fault counter advanced
